@@ -121,7 +121,12 @@ func (s *staffStrategy) FillEntity(e *Staff, b *boltz.TypedBucket) {
 	e.Grade = b.GetStringWithDefault(FGrade, "")
 }
 
+// KGradeInChecker is the name a field checker has to use for the child field `grade` (the strategy renames it for the checker:
+// PersistContext.WithFieldOverrides); every other field goes by its stored key
+const KGradeInChecker = "level"
+
 func (s *staffStrategy) PersistEntity(e *Staff, ctx *boltz.PersistContext) {
+	ctx.WithFieldOverrides(map[string]string{FGrade: KGradeInChecker})
 	s.people.GetEntityStrategy().PersistEntity(&e.Person, ctx.GetParentContext())
 	ctx.SetBool(FLead, e.Lead)
 	ctx.SetString(FGrade, e.Grade)
